@@ -316,7 +316,50 @@ def check_C10(rep, tier, seed):
     report_k3(rep, "C10", r3, direct, [], [])
 
 
+def k6_part(rep, tier, seed):
+    import k6
+    res = k6.run_k6(tier, seed)
+    rep.correspondences.append("K6 canary items through owning sources, in child processes: per-item drop counts, bad-drop "
+                               "detector, value vs model; with and without an injected closure panic")
+    rep.evaluations += res["total"]
+    rep.traces += res["total"]
+    rep.k6_nontrivial = res["nontrivial"] + res["panic_cases"]
+    for k, v in res["dist"].items():
+        rep.count("k6_" + k, v)
+    rep.count("k6_panic_cases", res["panic_cases"])
+    rep.count("k6_items_leaked_on_panic(allowed)", res["leaked_on_panic"])
+    for s in res["samples"][:4]:
+        rep.sample({"k6": s})
+    for e in res["errors"]:
+        rep.violation("K6 could not run: " + e, {"failing_input_found": False, "theorem_or_correspondence": "K6"})
+    return res
+
+
+def check_C13(rep, tier, seed):
+    coq_part(rep, "C13")
+    res = k6_part(rep, tier, seed)
+    for f in res["c13"][:3]:
+        rep.violation(f["what"], {"failing_input_found": True, "correspondence": "K6", "input": f})
+    mm = [m for m in res["mismatch"] if "panic=" not in m["case"]]
+    if not res["c13"] and mm:
+        for m in mm[:3]:
+            rep.violation("value returned over canary items differs from the specification",
+                          {"failing_input_found": True, "correspondence": "K6", "input": m})
+
+
+def check_C14(rep, tier, seed):
+    coq_part(rep, "C14")
+    res = k6_part(rep, tier, seed)
+    for f in res["c14"][:3]:
+        rep.violation(f["what"], {"failing_input_found": True, "correspondence": "K6", "input": f})
+    mm = [m for m in res["mismatch"] if "panic=" in m["case"]]
+    if not res["c14"] and mm:
+        corr_failure(rep, "K6(panic outcome)", mm, [], str)
+
+
 CHECKS = {
+    "C13": check_C13,
+    "C14": check_C14,
     "C10": check_C10,
     "C01": check_C01, "C02": check_C02, "C03": check_C03, "C04": check_C04, "C05": check_C05,
     "C06": check_C06, "C07": check_C07, "C08": check_C08, "C09": check_C09,
@@ -333,6 +376,7 @@ def main(prop, tier, seed, replay):
     rep.k1_nontrivial = 0
     rep.k3_nontrivial = 0
     rep.k10_nontrivial = 0
+    rep.k6_nontrivial = 0
     if replay:
         rep.notes.append("replay of %s: the check re-runs the recorded case first" % replay)
         os.environ["VERIF_REPLAY"] = replay
@@ -351,6 +395,8 @@ def main(prop, tier, seed, replay):
         rep.nontrivial.add(("k3", i))
     for i in range(rep.k10_nontrivial):
         rep.nontrivial.add(("k10", i))
+    for i in range(rep.k6_nontrivial):
+        rep.nontrivial.add(("k6", i))
     return rep.finish(
         level_text=LEVEL_TEXT.get(prop, "theorems over the Coq model + correspondence runs against /repo"),
         trusted_base=TRUSTED_BASE,
